@@ -178,6 +178,47 @@ def directed_schema(rng, shape):
     return decorate(rng, ents, p_abstract=0.5)
 
 
+def multi_schema(rng):
+    """k in {2,3} entities with several supertypes in one graph of 2..3 roots, each either inside one root (a diamond over
+    two sub-supertypes of that root) or spanning two/three hierarchies (roots or sub-supertypes of different roots); names
+    permuted, so every alphabetical order of the multiply-inheriting entities occurs (the combo list is joined in that order)"""
+    nroots = rng.choice([2, 2, 3])
+    k = rng.choice([2, 2, 3])
+    topo = {f"r{i}": [] for i in range(nroots)}
+    mids = {i: [] for i in range(nroots)}
+
+    def mid(i):
+        nm = f"m{i}_{len(mids[i])}"
+        topo[nm] = [f"r{i}"]
+        mids[i].append(nm)
+        return nm
+    budget = 8 - nroots - k
+    for j in range(k):
+        kind = rng.choice(["diamond", "span", "span"])
+        if kind == "diamond":
+            i = rng.randrange(nroots)
+            while len(mids[i]) < 2 and budget > 0:
+                mid(i); budget -= 1
+            if len(mids[i]) >= 2:
+                topo[f"x{j}"] = rng.sample(mids[i], 2)
+                continue
+        width = rng.choice([2, 2, nroots])
+        sup = []
+        for i in rng.sample(range(nroots), width):
+            if mids[i] and rng.random() < 0.4:
+                sup.append(rng.choice(mids[i]))
+            elif budget > 0 and rng.random() < 0.25:
+                sup.append(mid(i)); budget -= 1
+            else:
+                sup.append(f"r{i}")
+        topo[f"x{j}"] = sup
+    letters = list(NAMES[:len(topo)])
+    rng.shuffle(letters)
+    ren = dict(zip(topo, letters))
+    ents = [{"name": ren[n], "abstract": False, "supers": [ren[p] for p in ps], "expr": None} for n, ps in topo.items()]
+    return decorate(rng, ents, p_abstract=0.3)
+
+
 def render_schema(schema, name="c08"):
     out = [f"SCHEMA {name};"]
     for e in schema:
